@@ -8,10 +8,14 @@ Case kinds (all exhaustively enumerated):
           violation.
   redef : all ordered pairs of objective methods per front end: the second definition must raise (a late raise in
           do_math() is counted separately, a compiled program is the violation).
+  redef2: full product first objective value (0, 0.0, -0.0, numpy zeros, False, 3, variable, affine, 0*affine,
+          piecewise, convex / exp-cone atom) x first method x second method x second value, for ro, dro and the
+          direct lp / socp / gcp models.
   nsobj : non-scalar objective expressions (classes x shapes) x every objective method: same classification.
   read  : every read-back method on an unsolved model and after an infeasible / unbounded solve through each
-          installed interface: must not return a value (a raise, or None with a warning, is loud; a number is
-          the violation).
+          installed interface - also when a successful solve preceded the failed one (stale results): must not
+          return a value (a raise, or None with a warning, is loud; a number is the violation).  readok: the same
+          methods on a SOLVED model whose optimum / decisions are exactly 0 (falsy) must stay readable (counted only).
   amb   : dro `ambiguity()` after constraints of every kind exist: must raise (same classification).
   il    : two models built in interleaved order (all merges of their operation sequences) x front-end pairs x
           uncertainty-set kinds: compiled standard form, optimum and solution of each model equal its solo build.
@@ -24,8 +28,8 @@ PROPERTY = 'C17'
 TIMEOUT = 60.0
 CHUNK = 8
 FLOOR = 0.5
-RULE = ('x: every entry of the cross-model table x front-end pair; redef: ordered pairs of objective methods; nsobj: '
-        'expression class/shape x objective method; read: read-back method x (unsolved | infeasible/unbounded x '
+RULE = ('x: every entry of the cross-model table x front-end pair; redef: ordered pairs of objective methods; redef2: first objective value x method pair x second value (ro, dro, lp, socp, gcp); nsobj: '
+        'expression class/shape x objective method; read: read-back method x (unsolved | infeasible/unbounded/solved-then-infeasible x '
         'interface); amb: constraint kind; il: every merge of the two build sequences x front-end pair x set kind. '
         'non-trivial = the misuse was actually constructed and the real code raised (at the latest in do_math) '
         '(x, redef, nsobj, read, amb: for read the failed state is measured with optimal()==False); il: both models '
@@ -70,6 +74,18 @@ def gen_cases(tier, seed):
         meths = T.RO_OBJ if fe == 'ro' else T.DRO_OBJ
         for m1, m2 in itertools.product(meths, repeat=2):
             yield {'k': 'redef', 'fe': fe, 'm1': m1, 'm2': m2}
+    # full product: first objective value x first method x second method x second objective value
+    for fe in FES:
+        meths = T.RO_OBJ if fe == 'ro' else T.DRO_OBJ
+        for first in T.FIRST_OBJ:
+            for m1, m2 in itertools.product(meths, repeat=2):
+                for second in T.SECOND_OBJ:
+                    yield {'k': 'redef2', 'fe': fe, 'first': first, 'm1': m1, 'm2': m2, 'second': second}
+    for fe in T.DIRECT_MODELS:
+        for first in T.DIRECT_FIRST:
+            for m1, m2 in itertools.product(('min', 'max'), repeat=2):
+                for second in T.SECOND_OBJ:
+                    yield {'k': 'redef2', 'fe': fe, 'first': first, 'm1': m1, 'm2': m2, 'second': second}
     for fe in FES:
         meths = T.RO_OBJ if fe == 'ro' else T.DRO_OBJ
         for name, (fes, _) in T.NONSCALAR.items():
@@ -87,9 +103,17 @@ def gen_cases(tier, seed):
             if fe[0] not in fes:
                 continue
             yield {'k': 'read', 'fe': fe, 'meth': name, 'state': 'unsolved', 'solver': None}
-            for state in ('infeasible', 'unbounded'):
+            for state in ('infeasible', 'unbounded', 'stale-infeasible'):
                 for solver in T.SOLVERS:
                     yield {'k': 'read', 'fe': fe, 'meth': name, 'state': state, 'solver': solver}
+            for solver in ('def', 'eco'):
+                yield {'k': 'readok', 'fe': fe, 'meth': name, 'solver': solver}
+    # redefinition after the first objective has already been solved
+    for fe in FES:
+        meths = T.RO_OBJ if fe == 'ro' else T.DRO_OBJ
+        for first in ('int0', 'float0', 'affine'):
+            for m1, m2 in itertools.product(meths, repeat=2):
+                yield {'k': 'redef2', 'fe': fe, 'first': first, 'm1': m1, 'm2': m2, 'second': 'affine', 'solved': True}
     # (i) cross-model table
     for fa, fb in itertools.product(FES, repeat=2):
         for name in T.cross_entries(fa, fb):
@@ -135,7 +159,7 @@ def worker_init():
 
 
 def run_case(case):
-    return {'x': _run_x, 'redef': _run_redef, 'nsobj': _run_nsobj, 'scobj': _run_scobj, 'amb': _run_amb,
+    return {'x': _run_x, 'redef': _run_redef, 'redef2': _run_redef2, 'readok': _run_readok, 'nsobj': _run_nsobj, 'scobj': _run_scobj, 'amb': _run_amb,
             'read': _run_read, 'il': _run_il}[case['k']](case)
 
 
@@ -177,6 +201,39 @@ def _run_redef(case):
         return {'status': 'pass', 'outcome': 'late-raise(redef):' + how.split(':')[1], 'ops': 15, 'nontrivial': True}
     return {'status': 'violation', 'ops': 15, 'sig': 'redef|%s|%s->%s|accepted,%s' % (case['fe'], case['m1'], case['m2'], how),
             'detail': 'second objective definition did not raise and the model compiles'}
+
+
+def _run_redef2(case):
+    """first objective of a given (possibly falsy) value through m1, then a second objective through m2"""
+    T = _W['T']
+    fe, first, m1, m2, second = case['fe'], case['first'], case['m1'], case['m2'], case['second']
+    direct = fe in T.DIRECT_MODELS
+    A = T.D(fe) if direct else T.M(fe)
+    try:
+        e1 = T.FIRST_OBJ[first](A, m1 in T.MAXIMISING)
+        T.call_obj(A, m1, e1)
+    except Exception as ex:  # noqa
+        return {'status': 'unsupported', 'outcome': 'first-objective-rejected:' + type(ex).__name__, 'ops': 13}
+    if A.m.obj is None:
+        return {'status': 'vacuous', 'outcome': 'first-objective-not-recorded', 'ops': 13}
+    if case.get('solved'):
+        try:
+            A.m.st(A.y >= 0)
+            A.m.st(A.y <= 1)
+            A.m.solve(display=False)
+        except Exception as ex:  # noqa
+            return {'status': 'vacuous', 'outcome': 'first-objective-not-solvable:' + type(ex).__name__, 'ops': 16}
+    try:
+        T.call_obj(A, m2, T.SECOND_OBJ[second](A))
+    except Exception as ex:  # noqa
+        return {'status': 'pass', 'outcome': 'redef-raises:' + type(ex).__name__, 'ops': 14, 'nontrivial': True}
+    how = _after_accept(A)
+    if how != 'compiled':
+        return {'status': 'pass', 'outcome': 'late-raise(redef):' + how.split(':')[1], 'ops': 15, 'nontrivial': True}
+    return {'status': 'violation', 'ops': 15,
+            'sig': 'redef|%s|%s(%s)->%s(%s)|accepted,%s' % (fe, m1, first, m2, second, how),
+            'detail': 'after %s(<%s>) a second objective through %s() did not raise and the model compiles'
+                      % (m1, first, m2)}
 
 
 def _run_nsobj(case):
@@ -254,6 +311,8 @@ def _run_read(case):
         A, ctx = T.failed_model(fe, state, solver)
     except Exception as ex:  # noqa
         return {'status': 'vacuous', 'outcome': 'read-state-not-reached:solve-raises:' + type(ex).__name__, 'ops': 20}
+    if state == 'stale-infeasible' and not ctx.get('first_solve_optimal'):
+        return {'status': 'vacuous', 'outcome': 'read-state-not-reached:first-solve-not-optimal(%s)' % solver, 'ops': 21}
     if state != 'unsolved':
         try:
             opt = A.m.optimal()
@@ -272,6 +331,25 @@ def _run_read(case):
     return {'status': 'violation', 'ops': 22,
             'sig': 'read|%s|%s|%s|%s|returns-%s' % (fe, meth, state, solver or '-', what),
             'detail': '%s on a model that is %s (%s) returned %r' % (meth, state, solver, val if val is None else str(val)[:60])}
+
+
+def _run_readok(case):
+    """Sanity of the guards on falsy values: a SOLVED model whose optimum and decisions are exactly 0 stays readable."""
+    T = _W['T']
+    fe, meth, solver = case['fe'], case['meth'], case['solver']
+    try:
+        A, ctx = T.zero_model(fe, solver)
+        ok = A.m.optimal() and abs(A.m.get()) <= 1e-7
+    except Exception as ex:  # noqa
+        return {'status': 'vacuous', 'outcome': 'readok-state-not-reached:' + type(ex).__name__, 'ops': 20}
+    if not ok:
+        return {'status': 'vacuous', 'outcome': 'readok-state-not-reached:optimum-not-0', 'ops': 21}
+    try:
+        val = T.READBACK[meth][1](A, ctx)
+    except Exception as ex:  # noqa
+        # the statement only forbids reading unsolved / failed models; refusing a solved one is merely counted
+        return {'status': 'unsupported', 'outcome': 'readok-raises:%s(%s)' % (type(ex).__name__, meth), 'ops': 22}
+    return {'status': 'pass', 'outcome': 'readok-returns', 'ops': 22, 'nontrivial': val is not None}
 
 
 # ---- (iii) interleaved builds --------------------------------------------------------------------------------------
